@@ -18,6 +18,7 @@ def run(tier, rep):
     # scale: wide elements, long names
     wide = ["k%s" % ch for ch in "abcdefghijklmn"] + ["type", "Type", "a-rather-long-hyphenated-element-name", "ARatherLongCamelCaseElementName"]
     rc.random_trees(rep, "C04", tier, rc.C04_TAGS, n=20 if tier == "quick" else 500, ops=80, pool=wide, root_bias=60, pool_all=True, tag="wide")
+    rc.boundary_sessions(rep, "C04", tier, rc.C04_TAGS, n=18 if tier == "quick" else 216)
     rep.add(distinct_nontrivial=rep.coverage.get("trees_rendered", 0), rule=RULE, exhaustive=False,
             checker_cmd="tlc MC_ElementApi.tla (per pool) ; tlc RenderTrace.tla (judging)")
     rep.assumptions += ["'syntactically valid sequence of struct items' is reduced to: the output fits the fixed template "
